@@ -105,8 +105,9 @@ def run(tier, seed):
     c.assumptions += [
         "strconv.ParseFloat is correctly rounded and strconv.AppendFloat prints the shortest round-tripping digits "
         "(Section variables parse_float/fmt_float; the executable stand-ins of coq/c03/FloatText.v are compared with Go on every float of the run)",
-        "libm functions (sin, exp, pow, gamma, ...), frexp/modf and encoding/json's decoder (fromjson) are oracles: only dispatch, "
-        "argument conversion and result class are modelled",
+        "libm functions (sin, exp, pow, gamma, ...) and frexp/modf are oracles: only dispatch, argument conversion and result class "
+        "are modelled; fromjson is judged by the RFC 8259 reference reader coq/c12/JsonRef.v (plus encoding/json's U+FFFD replacement, "
+        "last-key-wins and nesting limit) and, in the harness, against json.Valid / json.Decoder with UseNumber",
         "math/big is exact; Go int is 64-bit two's complement",
         "sort.SliceStable is modelled as the insertion sort it is for n <= 20; for a strict weak order any stable sort agrees",
         "values are compared by denotation (int / *big.Int / integer literal = one integer; float / fraction literal = one binary64); "
